@@ -22,6 +22,7 @@ from __future__ import annotations
 
 import ast
 import hashlib
+import json
 import os
 
 from harness import shim
@@ -275,6 +276,113 @@ def _loop_lists(func, sc, src, rel):
     return out
 
 
+# ----------------------------------------------------------------------------------------------
+# state that could survive between two constructions, and the pickling hooks
+# ----------------------------------------------------------------------------------------------
+WORLD_MODULES = ["virtual_world/infrastructure.py", "virtual_world/sites.py", "virtual_world/equipment_groups.py",
+                 "virtual_world/component.py", "virtual_world/sources.py"]
+_MUTATORS = {"append", "extend", "insert", "remove", "pop", "clear", "sort", "reverse", "update", "setdefault",
+             "popitem", "add", "discard"}
+_CONTAINER_CALLS = {"list", "dict", "set", "defaultdict", "OrderedDict", "deque", "Counter"}
+_CONST_MODULES = {"constants.infrastructure_const", "constants.param_default_const", "constants.general_const",
+                  "constants.error_messages", "constants.output_file_constants", "constants"}
+
+
+def _is_container(node):
+    if isinstance(node, (ast.List, ast.Dict, ast.Set, ast.ListComp, ast.DictComp, ast.SetComp)):
+        return True
+    return (isinstance(node, ast.Call) and isinstance(node.func, ast.Name) and node.func.id in _CONTAINER_CALLS)
+
+
+def _root(node):
+    while isinstance(node, (ast.Attribute, ast.Subscript)):
+        node = node.value
+    return node.id if isinstance(node, ast.Name) else None
+
+
+def scan_shared_state():
+    """(hazards, reduce_table): syntactic table of everything in the five world-building modules that
+    could carry state from one construction to the next or between sibling objects:
+      module-/class-level mutable containers, caching decorators, __deepcopy__/__copy__/__getstate__
+      hooks, in-place mutation of a constants container (directly, through a local alias bound without
+      a copy, or through a class attribute); and, for every class with __reduce__, the arity and the
+      order of the arguments against _reconstruct"""
+    hazards, reduce_rows = [], []
+    for rel in WORLD_MODULES:
+        src, tree = _parse(rel)
+        mod = rel.split("/")[-1][:-3]
+        const_roots = {alias for alias, (m, name) in _import_aliases(tree).items() if m in _CONST_MODULES}
+        class_names = {n.name for n in tree.body if isinstance(n, ast.ClassDef)}
+        for st in tree.body:
+            if isinstance(st, (ast.Assign, ast.AnnAssign)) and st.value is not None and _is_container(st.value):
+                hazards.append((mod, "module-level-container", ast.unparse(st).split("\n")[0][:60]))
+        for cdef in [n for n in tree.body if isinstance(n, ast.ClassDef)]:
+            for st in cdef.body:
+                if isinstance(st, (ast.Assign, ast.AnnAssign)) and st.value is not None and _is_container(st.value):
+                    hazards.append((mod, "class-level-container", f"{cdef.name}: " + ast.unparse(st).split("\n")[0][:60]))
+            funcs = {f.name: f for f in cdef.body if isinstance(f, ast.FunctionDef)}
+            for f in funcs.values():
+                for dec in f.decorator_list:
+                    text = ast.unparse(dec)
+                    if any(w in text for w in ("lru_cache", "cache", "cached_property", "memo")):
+                        hazards.append((mod, "caching-decorator", f"{cdef.name}.{f.name}: @{text}"))
+                if f.name in ("__deepcopy__", "__copy__", "__getstate__", "__setstate__"):
+                    hazards.append((mod, "copy-hook", f"{cdef.name}.{f.name}"))
+                # aliases of constants / class attributes bound without a copy
+                aliases = set()
+                for node in ast.walk(f):
+                    if isinstance(node, (ast.Assign, ast.AnnAssign)) and node.value is not None:
+                        tgt = node.targets[0] if isinstance(node, ast.Assign) else node.target
+                        val = node.value
+                        if isinstance(val, (ast.Attribute, ast.Subscript)) and \
+                                (_root(val) in const_roots | class_names | {"cls"}):
+                            aliases.add(ast.unparse(tgt))
+                def shared(expr):
+                    r = _root(expr)
+                    text = ast.unparse(expr)
+                    if r in const_roots | class_names or r == "cls":
+                        return isinstance(expr, (ast.Attribute, ast.Subscript))
+                    if text.startswith("type(self).") or text.startswith("self.__class__."):
+                        return True
+                    return text in aliases
+                for node in ast.walk(f):
+                    if isinstance(node, ast.Call) and isinstance(node.func, ast.Attribute) \
+                            and node.func.attr in _MUTATORS and shared(node.func.value):
+                        hazards.append((mod, "in-place-mutation-of-shared-container",
+                                        f"{cdef.name}.{f.name}:{node.lineno}: {ast.unparse(node)[:70]}"))
+                    if isinstance(node, (ast.Assign, ast.AugAssign, ast.Delete)):
+                        tgts = node.targets if isinstance(node, (ast.Assign, ast.Delete)) else [node.target]
+                        for tg in tgts:
+                            if isinstance(tg, ast.Subscript) and shared(tg.value):
+                                hazards.append((mod, "in-place-mutation-of-shared-container",
+                                                f"{cdef.name}.{f.name}:{node.lineno}: {ast.unparse(node)[:70]}"))
+                            if isinstance(tg, ast.Attribute) and (_root(tg) in const_roots | class_names | {"cls"}):
+                                hazards.append((mod, "assignment-to-class-or-constant-attribute",
+                                                f"{cdef.name}.{f.name}:{node.lineno}: {ast.unparse(node)[:70]}"))
+            # pickling: __reduce__ hands _reconstruct its arguments positionally
+            if "__reduce__" in funcs:
+                red, rec = funcs["__reduce__"], funcs.get("_reconstruct")
+                args = None
+                for node in ast.walk(red):
+                    if isinstance(node, ast.Assign) and isinstance(node.targets[0], ast.Name) \
+                            and node.targets[0].id == "args" and isinstance(node.value, ast.Tuple):
+                        args = [_self_attr(e) for e in node.value.elts]
+                if args is None or rec is None or None in args:
+                    hazards.append((mod, "reduce-shape-not-recognised", cdef.name))
+                    continue
+                params = [a.arg for a in rec.args.args][1:]
+                n_default = len(rec.args.defaults)
+                assigned = {}
+                for node in ast.walk(rec):
+                    if isinstance(node, ast.Assign) and isinstance(node.targets[0], ast.Attribute) \
+                            and isinstance(node.targets[0].value, ast.Name) and node.targets[0].value.id == "instance" \
+                            and isinstance(node.value, ast.Name):
+                        assigned[node.value.id] = node.targets[0].attr
+                order_ok = len(args) <= len(params) and all(assigned.get(pn) == a for a, pn in zip(args, params))
+                reduce_rows.append((cdef.name, len(args), len(params) - n_default, len(params), order_ok))
+    return hazards, reduce_rows
+
+
 def extract():
     repo = _Repo()
     IC, VW = repo.IC, repo.VW
@@ -450,6 +558,7 @@ def extract():
         "sourceFile": {n: v for n, v in R.items() if isinstance(v, str)},
         "sampleCall": sample_call,
         "samplePlain": sample_plain,
+        "sharedState": scan_shared_state(),
         "methLookupExact": meth_lookup,
         "methSpecific": repo.pdc["Common_Params"]["METH_SPECIFIC"],
         "values": repo.pdc["Common_Params"]["VAL"],
@@ -522,6 +631,19 @@ def render(tables, extra):
             cells.append("none" if v is None else f"some {_s(v)}")
         rows.append(f"  ({_s(n)}, {', '.join(cells)})")
     out.append(",\n".join(rows) + "]")
+    hazards, reduce_rows = extra["sharedState"]
+    out += [
+        "",
+        "/-- everything in infrastructure.py / sites.py / equipment_groups.py / component.py / sources.py that could",
+        "carry state from one construction to the next or between sibling objects: (module, kind, where) -/",
+        "def sharedStateHazards : List (String × String × String) := ["
+        + ", ".join(f"({_s(a)}, {_s(b)}, {_s(c)})" for a, b, c in hazards) + "]",
+        "",
+        "/-- pickling: per class with `__reduce__`: (class, number of arguments handed over, least and greatest number",
+        "of parameters `_reconstruct` accepts, every argument lands in the attribute it was read from) -/",
+        "def reduceTable : List (String × Nat × Nat × Nat × Bool) := ["
+        + ", ".join(f"({_s(c)}, {n}, {lo}, {hi}, {'true' if ok else 'false'})" for c, n, lo, hi, ok in reduce_rows) + "]",
+    ]
     out += ["", "end LdarModel.Generated.Levels", ""]
     return "\n".join(out)
 
@@ -539,7 +661,25 @@ def regenerate():
         with open(tmp, "w") as fh:
             fh.write(text)
         os.replace(tmp, path)
+    with open(LAST_GOOD + f".tmp{os.getpid()}", "w") as fh:
+        json.dump({"tables": tables, "extra": extra}, fh, indent=1)
+    os.replace(LAST_GOOD + f".tmp{os.getpid()}", LAST_GOOD)
     return tables, extra, changed, hashlib.sha256(text.encode()).hexdigest()[:16]
+
+
+LAST_GOOD = os.path.join(os.path.dirname(os.path.abspath(__file__)), "levels_last_good.json")
+
+
+def last_good():
+    """tables of the last successful extraction (used to keep searching for a failing input when the
+    current source no longer has the shape the extractor reads)"""
+    with open(LAST_GOOD) as fh:
+        d = json.load(fh)
+    ex = d["extra"]
+    ex["globalPlainPaths"] = [tuple(x) for x in ex["globalPlainPaths"]]
+    ex["globalMethPaths"] = [tuple(x) for x in ex["globalMethPaths"]]
+    ex["sharedState"] = tuple(ex["sharedState"])
+    return d["tables"], ex
 
 
 if __name__ == "__main__":
